@@ -29,7 +29,7 @@ type tdef struct {
 	hasSlot bool
 }
 
-var hand = []string{"wrap()", "ignore()", `templ.Raw("<r>")`, "onceA.Once()", "onceB.Once()", "templ.Flush()"}
+var hand = []string{"wrap()", "ignore()", `templ.Raw("<r>")`, "onceA.Once()", "onceB.Once()", "templ.Flush()", "templ.Flush()", "capt()", "hflush()", "hflush()"}
 
 type gen struct {
 	r      *rng.R
@@ -50,6 +50,9 @@ func (g *gen) items(depth int, inSlotTemplate bool) []*item {
 			res = append(res, &item{kind: "text", text: g.mark()})
 		case k == 2 && inSlotTemplate:
 			res = append(res, &item{kind: "children"})
+		case k == 3 && depth > 0:
+			// a loop (two iterations): what the last call of one iteration leaves behind must not reach the next iteration
+			res = append(res, &item{kind: "for", block: g.items(depth-1, inSlotTemplate)})
 		default:
 			callees := []string{g.prefix + "Card", g.prefix + "Twice", g.prefix + "Ign", g.prefix + "Card"}
 			callees = append(callees, g.mids...)
@@ -74,6 +77,12 @@ func (it *item) print(sb *strings.Builder, lvl int) {
 		sb.WriteString(ind + it.text + "\n")
 	case "children":
 		sb.WriteString(ind + "{ children... }\n")
+	case "for":
+		sb.WriteString(ind + "for _, x := range xs {\n" + ind + "\t{{ _ = x }}\n")
+		for _, b := range it.block {
+			b.print(sb, lvl+1)
+		}
+		sb.WriteString(ind + "}\n")
 	case "call":
 		call := it.callee
 		if !isHand(call) {
@@ -140,6 +149,8 @@ func (o *oracle) items(its []*item, kids func() string) string {
 			parts = append(parts, "T:"+it.text)
 		case "children":
 			parts = append(parts, "X:"+kids())
+		case "for":
+			parts = append(parts, "X:"+o.items(it.block, kids)+o.items(it.block, kids))
 		case "call":
 			slot := func() string { return "" }
 			if it.hasBlk {
@@ -168,6 +179,10 @@ func (o *oracle) call(callee string, slot func() string) string {
 		return "<g></g>"
 	case "wrap()":
 		return "[" + slot() + "]"
+	case "capt()":
+		return "{" + slot() + "}"
+	case "hflush()":
+		return "<f>" + slot() + "</f>"
 	case "ignore()":
 		return "(i)"
 	case `templ.Raw("<r>")`:
@@ -189,7 +204,7 @@ func (o *oracle) call(callee string, slot func() string) string {
 }
 
 func Run(c *core.Ctx) {
-	c.Rule = "programs: random component call trees (depth <= 4) over generated callees that use (Card), repeat (Twice) or ignore (Ign) their slot, intermediate templates that pass their own children on inside a nested block (Mid), and hand-written callees (wrap, ignore, templ.Raw, two once handles, templ.Flush), with and without blocks, siblings after unconsumed blocks; each block carries unique marker texts; distinct non-trivial = distinct entry templates rendered"
+	c.Rule = "programs: random component call trees (depth <= 4) over generated callees that use (Card), repeat (Twice) or ignore (Ign) their slot, intermediate templates that pass their own children on inside a nested block (Mid), two-iteration for loops around calls, and hand-written callees (wrap, capt - which renders its children into a plain non-flushable bytes.Buffer -, hflush - which renders templ.Flush() with its children into a plain writer -, ignore, templ.Raw, two once handles, templ.Flush), with and without blocks, siblings after unconsumed blocks; each block carries unique marker texts; distinct non-trivial = distinct entry templates rendered"
 	c.Proofs()
 	nFiles := c.N(60, 800)
 	per := 120
@@ -221,7 +236,7 @@ func Run(c *core.Ctx) {
 		var names []string
 		for fi := range files {
 			for _, d := range alldefs[fi] {
-				pc = append(pc, probe.Case{Template: d.name, Args: tgen.Args{}})
+				pc = append(pc, probe.Case{Template: d.name, Args: tgen.Args{Xs: []string{"p", "q"}}})
 				owner = append(owner, fi)
 				names = append(names, d.name)
 			}
@@ -247,6 +262,14 @@ func Run(c *core.Ctx) {
 			}
 			o := &oracle{defs: dm, pre: prefixes[fi], onces: map[string]bool{}}
 			want := "OK:" + o.items(dm[names[i]].body, func() string { return "" })
+			if strings.HasPrefix(res[i], "CRASH:") {
+				oracleOK = false
+				if c.NFails("call tree: rendering terminates") < 3 {
+					c.Fail("property", "call tree: rendering terminates", "render-crashed", map[string]any{"template": names[i], "source": files[fi].Src, "crash": res[i], "expected": want},
+						"rendering the call tree kills the process (a block rendered inside itself recurses without end)")
+				}
+				continue
+			}
 			if strings.ReplaceAll(res[i], " ", "") != want {
 				oracleOK = false
 				if c.NFails("call tree: rendered markup shows exactly the block of each call site") < 4 {
